@@ -16,7 +16,7 @@ func init() {
 		ID:    "C26",
 		Roots: []string{"daemon"},
 		Technique:   "guarded-sink reachability on the SSA CFG of ServeHTTP and every access checker + who-may-read/write of the handler fields + composite-literal table check",
-		Explanation: "Structural necessary conditions for 'REST requests are served only to allowed callers': (R1) in Command.ServeHTTP the dynamic call of the ResponseFunc is cut from the entry by CheckAccess(...)==nil and by a usable ucrednetGet result, and the handler/access phi pairs GET with ReadAccess and PUT/POST with WriteAccess; (R2) the handler fields are read nowhere else and written only by package initialisation; (R3) every Command literal sets the access checker its methods need; (R4) each access checker returns nil only across its declared gates (socket, uid, user, polkit, active interface connection); (R5) the peer-credential parser only succeeds with both pid and uid parsed, and the address regexp and the formatter share one literal skeleton with separator-free classes.",
+		Explanation: "Structural necessary conditions for 'REST requests are served only to allowed callers': (R1) in Command.ServeHTTP the dynamic call of the ResponseFunc is cut from the entry by CheckAccess(...)==nil and by a usable ucrednetGet result, the user checked is userFromRequest(state, r) of the very request, and the handler/access phi pairs GET with ReadAccess and PUT/POST with WriteAccess; (R2) the handler fields are read nowhere else and written only by package initialisation; (R3) every Command literal sets the access checker its methods need; (R4) each access checker returns nil only across its declared gates (socket, uid, user, polkit, active interface connection); (R5) the peer-credential parser only succeeds with both pid and uid parsed, and the address regexp and the formatter share one literal skeleton with separator-free classes.",
 		NotDecided:  "polkit itself; cgroup-based identification of the calling snap; the net/http routing layer.",
 		Assumptions: []string{"function variables used for mocking (ucrednetGet, checkPolkitAction, requireInterfaceApiAccess, error responders) are only reassigned by test code; R4 verifies there is no non-test store"},
 		Run:         runC26,
@@ -150,6 +150,9 @@ func runC26(c *Ctx) {
 			args := CallArgs(ca)
 			construct = "daemon.(*Command).ServeHTTP#checked-credentials"
 			c.Check(len(args) == 4 && VRes(0, ViaGlobal(gUcrednetGet))(args[2]), construct, ca.Pos(), "CheckAccess receives result 0 of ucrednetGet(r.RemoteAddr)", "CheckAccess does not receive the credentials returned by ucrednetGet")
+			// the user checked is looked up in the state for THIS request (no cached identity)
+			ufr := P.FuncObj("daemon.userFromRequest")
+			c.Check(len(args) == 4 && VRes(0, CallWhere(ToFn(ufr), 1, VParam(serve, 2)))(args[3]), "daemon.(*Command).ServeHTTP#checked-user", ca.Pos(), "CheckAccess receives userFromRequest(state, r) of this request", "the user handed to CheckAccess is not the result of userFromRequest(st, r) for this request (a remembered identity outlives logout / user removal)")
 			// ucrednetGet argument is r.RemoteAddr
 			ug := CallsMatching(serve, ViaGlobal(gUcrednetGet))
 			okArg := len(ug) == 1
